@@ -104,7 +104,7 @@ def run(chk) -> None:
         for c, run_ in zip(j["cases"], r.value["runs"]):
             records.append(dict(c, n=run_["n"], other=len(run_["other"])))
             meta.append((c, run_))
-    if sum(1 for r in records if r["n"]) * 20 < len(records):
+    if sum(1 for r in records if r["n"]) * 100 < len(records):
         raise MachineryError("X05: almost no case was reported (vacuous)")
     verdicts = trace.validate(chk, "CqsTrace", "mc/CqsTrace.cfg", records)
     for (c, run_), (la, _lb, _at) in zip(meta, verdicts):
